@@ -102,6 +102,7 @@ type FuncCtx struct {
 	covers         int
 	coverFail      []string
 	poison         *poisonState
+	rfamCache      []famInst
 	deferred       []*ast.DeferStmt
 	curNode        ast.Node
 	defs           map[string]string
